@@ -271,6 +271,7 @@ package comp
 //@ opaque spec func ringLen(r *RAT) int = r.length
 //@ opaque spec func validSlot(r *RAT, k K, i int) bool = k in r.idx && ((0 <= i && i <= r.idx[k]) || (r.wrapped[k] && r.idx[k] < i && i < r.length))
 //@ opaque spec func rank(r *RAT, k K, i int) int = i <= r.idx[k] ? r.idx[k] - i : r.idx[k] + r.length - i
+//@ opaque spec func slotOfRank(r *RAT, k K, j int) int = j <= r.idx[k] ? r.idx[k] - j : r.idx[k] + r.length - j
 //@ opaque spec func wfRAT(r *RAT) bool = r != nil && 0 < r.length && r.length <= 1073741824 && r.values != nil && r.idx != nil && r.wrapped != nil \
 //@    && (forall k K :: (k in r.idx) == (k in r.values)) \
 //@    && (forall k K :: k in r.idx ==> 0 <= r.idx[k] && r.idx[k] < r.length && len(r.values[k]) == r.length && allocated(r.values[k])) \
@@ -283,6 +284,7 @@ package comp
 //@   ensures fresh(result.idx) && fresh(result.values) && fresh(result.wrapped)
 //@   ensures forall k K :: !(k in result.idx)
 //@   ensures forall k K :: !has(result, k)
+//@   ensures forall k K, i int :: !validSlot(result, k, i)
 //@   ensures ringLen(result) == length
 //@   assigns nothing
 
@@ -317,8 +319,10 @@ package comp
 //@   ensures forall i :: k in r.idx && r.wrapped[k] && r.idx[k] < i && i < r.length ==> at(result, lo(result) + r.idx[k] + r.length - i) == r.values[k][i]
 //@   ensures !has(r, k) ==> len(result) == 0
 //@   ensures has(r, k) ==> len(result) >= 1 && at(result, lo(result)) == newest(r, k)
+//@   ensures has(r, k) ==> validSlot(r, k, r.idx[k]) && rank(r, k, r.idx[k]) == 0 && slot(r, k, r.idx[k]) == newest(r, k)
 //@   ensures forall i :: validSlot(r, k, i) ==> 0 <= rank(r, k, i) && rank(r, k, i) < len(result) && at(result, lo(result) + rank(r, k, i)) == slot(r, k, i)
 //@   ensures forall j :: 0 <= j && j < len(result) ==> (exists i :: validSlot(r, k, i) && rank(r, k, i) == j)
+//@   ensures forall j :: 0 <= j && j < len(result) ==> validSlot(r, k, slotOfRank(r, k, j)) && rank(r, k, slotOfRank(r, k, j)) == j && at(result, lo(result) + j) == slot(r, k, slotOfRank(r, k, j))
 //@   assigns nothing
 //@   loop 0: invariant -1 <= i && i <= idx && len(res) == idx - i && cap(res) >= r.length && fresh(res) && !sameArray(res, r.values[k])
 //@   loop 0: invariant forall j :: i < j && j <= idx ==> at(res, lo(res) + idx - j) == r.values[k][j]
@@ -336,6 +340,11 @@ package comp
 //@   ensures forall k2 K :: k2 != k ==> (k2 in r.idx) == old(k2 in r.idx) && r.idx[k2] == old(r.idx[k2]) && r.values[k2] == old(r.values[k2]) && r.wrapped[k2] == old(r.wrapped[k2])
 //@   ensures forall k2 K, i int :: k2 != k && k2 in r.idx && 0 <= i && i < r.length ==> r.values[k2][i] == old(r.values[k2][i])
 //@   ensures has(r, k) && newest(r, k) == value && ringLen(r) == old(ringLen(r))
+//@   -- ring-shift view: the new value has rank 0, every other written slot of the key is one older than before
+//@   ensures validSlot(r, k, r.idx[k]) && rank(r, k, r.idx[k]) == 0 && slot(r, k, r.idx[k]) == value
+//@   ensures forall i int :: validSlot(r, k, i) && i != r.idx[k] ==> old(validSlot(r, k, i)) && rank(r, k, i) == old(rank(r, k, i)) + 1 && slot(r, k, i) == old(slot(r, k, i))
+//@   ensures forall i int :: validSlot(r, k, i) ==> 0 <= rank(r, k, i) && rank(r, k, i) < ringLen(r)
+//@   ensures !old(has(r, k)) ==> (forall i int :: validSlot(r, k, i) ==> i == r.idx[k])
 //@   ensures forall k2 K :: k2 != k ==> has(r, k2) == old(has(r, k2)) && newest(r, k2) == old(newest(r, k2))
 //@   ensures forall k2 K, i int :: k2 != k ==> slot(r, k2, i) == old(slot(r, k2, i)) && validSlot(r, k2, i) == old(validSlot(r, k2, i)) && rank(r, k2, i) == old(rank(r, k2, i))
 //@   assigns r.idx[*], r.values[*], r.wrapped[*], r.values[k][*]
@@ -348,7 +357,14 @@ package comp
 //@   ensures len(values) == 0 ==> !has(r, k)
 //@   ensures len(values) > 0 ==> has(r, k) && newest(r, k) == old(at(values, lo(values)))
 //@   ensures forall k2 K :: k2 != k ==> has(r, k2) == old(has(r, k2)) && newest(r, k2) == old(newest(r, k2))
+//@   -- ring view: the written slot of rank j holds values[j]; the other keys keep their rings
+//@   ensures len(values) > 0 ==> (forall i int :: validSlot(r, k, i) ==> 0 <= rank(r, k, i) && rank(r, k, i) < len(values) && slot(r, k, i) == at(values, lo(values) + rank(r, k, i)))
+//@   ensures forall a :: lo(values) <= a && a < hi(values) ==> at(values, a) == old(at(values, a))
+//@   ensures forall k2 K, i int :: k2 != k ==> slot(r, k2, i) == old(slot(r, k2, i)) && validSlot(r, k2, i) == old(validSlot(r, k2, i)) && rank(r, k2, i) == old(rank(r, k2, i))
 //@   assigns r.idx[*], r.values[*], r.wrapped[*], all []V
+//@   loop 0: conceal validSlot, rank, slot
+//@   loop 0: invariant i < len(values) - 1 ==> (forall j int :: validSlot(r, k, j) ==> 0 <= rank(r, k, j) && rank(r, k, j) < len(values) - 1 - i && slot(r, k, j) == at(values, lo(values) + i + 1 + rank(r, k, j)))
+//@   loop 0: invariant forall k2 K, i2 int :: k2 != k ==> slot(r, k2, i2) == old(slot(r, k2, i2)) && validSlot(r, k2, i2) == old(validSlot(r, k2, i2)) && rank(r, k2, i2) == old(rank(r, k2, i2))
 //@   loop 0: invariant -1 <= i && i < len(values) && wfRAT(r) && ringLen(r) == old(ringLen(r))
 //@   loop 0: invariant i == len(values) - 1 ==> !has(r, k)
 //@   loop 0: invariant i < len(values) - 1 ==> has(r, k) && newest(r, k) == at(values, lo(values) + i + 1) && fresh(r.values[k])
